@@ -77,8 +77,11 @@ def main(run):
             rm_probe = pkg.mod("regret").GameRegretMinimizer(n, l, plus)
             for node in range(rm_probe.number_of_regret_minimizers):
                 run.prove(f"strategies[n={n},limit={l},plus={plus},node={node}]", RS.sc_regret_strategies, dict(p, node=node), pkg=pkg)
-            run.prove(f"iteration[n={n},limit={l},plus={plus}]", RS.sc_regret_iteration,
-                      dict(p, orth=((n, l) in ((3, 1), (3, 2)) or (not quick and n == 3))), pkg=pkg, max_paths=70000)
+            # orthogonality is QF_NRA; beyond limit 2 neither solver decides it within 3 x 300 s (measured in the thorough
+            # tier), so it is asked only where it is decided; the bounded layer checks it on float32 histories everywhere
+            prove = run.prove_parallel if (n, l) == (4, 2) else run.prove
+            prove(f"iteration[n={n},limit={l},plus={plus}]", RS.sc_regret_iteration,
+                  dict(p, orth=((n, l) in ((3, 1), (3, 2)))), pkg=pkg, max_paths=70000)
             if (n, l) in ((3, 2), (3, 1), (4, 1)):
                 run.prove(f"save_load[n={n},limit={l},plus={plus}]", RS.sc_regret_save_load, p, pkg=pkg)
     run.discharge()
